@@ -32,7 +32,12 @@ def run(ctx):
                                {"op": "create", "at": "", "h": ["md5"], "now": "2026-03-01 12:00:02", "i": ["*.log", "!keep.log", "*.tmp"]},
                                {"op": "create", "at": "", "h": ["md5"], "now": "2026-03-01 12:00:03", "i": again}, {"op": "create", "at": "s", "h": ["md5"], "now": "2026-03-01 12:00:04", "i": again},
                                {"op": "create", "at": "", "h": ["sha1"], "now": "2026-03-01 12:00:05"}, {"op": "verify", "at": ""}]})
-    return _scn.run_scn(ctx, scs, M.m_c02, extra_fails=largefiles.extra(ctx), witness_ids=("D5a", "D10", "D4b"),
+    # the path glue of the command line (MhlModel/Paths.lean): the library functions against posixpath, the recorded
+    # path of create -sf / the answer of verify -sf against the model's prediction
+    from .. import paths_case
+    lib_diffs, lib_n = paths_case.library(ctx.seed, ctx.scale(1500, 40000))
+    cl_fails, cl_diffs, cl_n = paths_case.command_line(ctx.seed, ctx.scale(40, 600))
+    return _scn.run_scn(ctx, scs, M.m_c02, extra_fails=largefiles.extra(ctx) + cl_fails, extra_diffs=lib_diffs + cl_diffs, extra_cov={"path_glue": {"library_cases": lib_n, "command_line_cases": cl_n}}, witness_ids=("D5a", "D10", "D4b"),
         assumptions=["trees of regular files and directories (no symbolic links); names are valid UTF-8 without control characters",
                      "'excluded' is defined by pathspec gitwildmatch applied to the path relative to the command root"])
 
